@@ -162,6 +162,9 @@ def regex_call(I, how, pattern, s):
             mv.start = 0
     if groups is not None:
         mv.declared_only = True
+    if extra.get('captures') is not None:
+        # repeated groups (regex module: match.captures(name)) declared by the environment, one contract expression per capture
+        mv.captures = {k: [I.eval_src(x, I._top_frame) for x in xs] for k, xs in extra['captures'].items()}
     if extra.get('literal') is not None:
         # the match is an occurrence of this fixed word (R1 geometry plus: the matched text is the word)
         lit = extra['literal']
@@ -230,6 +233,8 @@ def match_method(I, m, name, args, kwargs):
         return match_group(I, m, args[0] if args else 0)
     if name == 'groupdict':
         return dict(m.groups)
+    if name == 'captures' and getattr(m, 'captures', None) is not None and len(args) == 1 and args[0] in m.captures:
+        return list(m.captures[args[0]])
     if name == 'captures' or name == 'groups':
         raise Unsupported('match.' + name)
     raise Unsupported('match.' + name)
